@@ -5,7 +5,7 @@ From Coq Require Import ZArith List Bool Reals Lia Lra.
 From FT.lib Require Import Num Arr ArrLemmas Lower NumArr.
 From FT.gen Require Import Common Interp2d Interp3d Vinterp2d Vinterp3d FteikCommon Fteik2d Fteik3d Ray2d Ray3d.
 From FT.proofs Require Import Sweep2dProofs OperatorsR SweepDargs.
-From FT.proofs Require Operators3R.
+From FT.proofs Require Operators3R InitSym InitExact.
 Import ListNotations.
 Open Scope R_scope.
 
@@ -175,6 +175,98 @@ Theorem C01_sweep3d_plane_wave :
        set tt [i; j; k] (pymin4 (get 0 tt [i; j; k]) t1 t2 (T0 + s * (a * dz + b * dx + c * dy))).
 Proof. exact @Operators3R.sweep_op3_plane_wave. Qed.
 
+(* off-node sources: the generated source-line initialisation is (by conversion) corners + east, west, down, up phases *)
+Theorem C01_init_is_four_copies :
+  forall (T : Type) (H : Num T) (dx dz : T) (grad : bool) (iflag nx nz : Z) (slow tt_v ttgrad : arr T)
+         (ttsgn : arr Z) (vzero xsa : T) (xsi : Z) (zsa : T) (zsi : Z),
+       fteik2d_p2 dx dz grad iflag nx nz slow tt_v ttgrad ttsgn vzero xsa xsi zsa zsi =
+       (if iflag =? 2
+        then
+         let td := full [Z.max nz nx] Fteik2d.Big in
+         let dzu := nabs (nsub zsa (nofZ zsi)) in
+         let dzd := nsub (nofZ 1) dzu in
+         let dxw := nabs (nsub xsa (nofZ xsi)) in
+         let dxe := nsub (nofZ 1) dxw in
+         let c := InitSym.init_corners dx dz grad vzero xsa xsi zsa zsi tt_v ttgrad in
+         let st := InitSym.east_phase dx dz grad nx slow vzero xsa xsi zsa zsi dzu dzd dxe (td, fst c, ttsgn) in
+         let st0 := InitSym.west_phase dx dz grad slow vzero xsa xsi zsa zsi dzu dzd dxw st in
+         let st1 :=
+           InitSym.down_phase dx dz grad nz slow vzero xsa xsi zsa zsi dxw dxe dzd
+             (fill (fst (fst st0)) Fteik2d.Big, snd (fst st0), snd st0) in
+         let st2 := InitSym.up_phase dx dz grad slow vzero xsa xsi zsa zsi dxw dxe dzu st1 in
+         (snd (fst st2), snd c, snd st2)
+        else (set tt_v [ntrunc zsa; ntrunc xsa] (nofZ 0), ttgrad, ttsgn)).
+Proof. exact @InitSym.fteik2d_p2_decompose. Qed.
+
+(* homogeneous medium, source anywhere in its cell, any spacings: after the initialisation every node is either untouched (placeholder) or holds exactly slowness x distance, and the set of written nodes is init_set (corners of the source cell and the reached nodes of the two rows and two columns through it); in particular the admissibility guard of fix fdc5767 always passes there *)
+Theorem C01_init_homogeneous_exact :
+  forall (nz nx : Z) (dz dx : R) (grad : bool) (slow tt ttgrad : arr R) (ttsgn : arr Z) 
+         (vzero zsa xsa : R) (zsi xsi : Z),
+       0 < dz ->
+       0 < dx ->
+       0 <= vzero ->
+       (0 <= zsi < nz - 1)%Z ->
+       (0 <= xsi < nx - 1)%Z ->
+       IZR zsi <= zsa <= IZR zsi + 1 ->
+       IZR xsi <= xsa <= IZR xsi + 1 ->
+       (forall i j : Z, (0 <= i < nz - 1)%Z -> (0 <= j < nx - 1)%Z -> get 0 slow [i; j] = vzero) ->
+       wf tt ->
+       shape tt = [nz; nx] ->
+       (forall i j : Z, (0 <= i < nz)%Z -> (0 <= j < nx)%Z -> get 0 tt [i; j] = Fteik2d.Big) ->
+       let r := fteik2d_p2 dx dz grad 2 nx nz slow tt ttgrad ttsgn vzero xsa xsi zsa zsi in
+       forall i j : Z,
+       (0 <= i < nz)%Z ->
+       (0 <= j < nx)%Z ->
+       (InitExact.init_set dz dx vzero zsa xsa zsi xsi i j \/ ~ InitExact.init_set dz dx vzero zsa xsa zsi xsi i j) /\
+       (InitExact.init_set dz dx vzero zsa xsa zsi xsi i j ->
+        get 0 (fst (fst r)) [i; j] = Fteik2d.t_ana i j dz dx zsa xsa vzero) /\
+       (~ InitExact.init_set dz dx vzero zsa xsa zsi xsi i j -> get 0 (fst (fst r)) [i; j] = Fteik2d.Big).
+Proof. exact @InitExact.fteik2d_init_homogeneous_exact. Qed.
+
+(* which nodes are written *)
+Theorem C01_init_written_nodes :
+  forall (dz dx vzero zsa xsa : R) (zsi xsi i j : Z),
+       let dzu := Rabs (zsa - IZR zsi) in
+       let dzd := 1 - dzu in
+       let dxw := Rabs (xsa - IZR xsi) in
+       let dxe := 1 - dxw in
+       let ta := fun a b : Z => Fteik2d.t_ana a b dz dx zsa xsa vzero in
+       let row_ok := i = (zsi + 1)%Z /\ 0 < dzd \/ i = zsi /\ 0 < dzu in
+       let col_ok := j = (xsi + 1)%Z /\ 0 < dxe \/ j = xsi /\ 0 < dxw in
+       InitExact.init_set dz dx vzero zsa xsa zsi xsi i j <->
+       (zsi <= i <= zsi + 1)%Z /\ (xsi <= j <= xsi + 1)%Z \/
+       row_ok /\ (xsi + 2 <= j)%Z /\ ta i (j - 1)%Z < Fteik2d.Big \/
+       row_ok /\ (j <= xsi - 1)%Z /\ ta i (j + 1)%Z < Fteik2d.Big \/
+       col_ok /\ (zsi + 2 <= i)%Z /\ ta (i - 1)%Z j < Fteik2d.Big \/
+       col_ok /\ (i <= zsi - 1)%Z /\ ta (i + 1)%Z j < Fteik2d.Big.
+Proof. exact @InitExact.init_set_spelled_out. Qed.
+
+(* and the gradient signs recorded for them point away from the source *)
+Theorem C01_init_homogeneous_signs :
+  forall (nz nx : Z) (dz dx : R) (slow tt ttgrad : arr R) (ttsgn : arr Z) (vzero zsa xsa : R) (zsi xsi : Z),
+       0 < dz ->
+       0 < dx ->
+       0 <= vzero ->
+       (0 <= zsi < nz - 1)%Z ->
+       (0 <= xsi < nx - 1)%Z ->
+       IZR zsi <= zsa <= IZR zsi + 1 ->
+       IZR xsi <= xsa <= IZR xsi + 1 ->
+       (forall i j : Z, (0 <= i < nz - 1)%Z -> (0 <= j < nx - 1)%Z -> get 0 slow [i; j] = vzero) ->
+       wf tt ->
+       shape tt = [nz; nx] ->
+       (forall i j : Z, (0 <= i < nz)%Z -> (0 <= j < nx)%Z -> get 0 tt [i; j] = Fteik2d.Big) ->
+       wf ttsgn ->
+       shape ttsgn = [nz; nx; 2%Z] ->
+       let r := fteik2d_p2 dx dz true 2 nx nz slow tt ttgrad ttsgn vzero xsa xsi zsa zsi in
+       forall i j : Z,
+       (0 <= i < nz)%Z ->
+       (0 <= j < nx)%Z ->
+       InitExact.init_set dz dx vzero zsa xsa zsi xsi i j ->
+       ~ ((zsi <= i <= zsi + 1)%Z /\ (xsi <= j <= xsi + 1)%Z) ->
+       get 0%Z (snd r) [i; j; 0%Z] = (if i <=? zsi then (-1)%Z else 1%Z) /\
+       get 0%Z (snd r) [i; j; 1%Z] = (if j <=? xsi then (-1)%Z else 1%Z).
+Proof. exact @InitExact.fteik2d_init_homogeneous_signs. Qed.
+
 Print Assumptions C01_sweep2d_constants.
 Print Assumptions C01_sweep3d_constants.
 Print Assumptions C01_t_ana_is_distance_times_slowness.
@@ -187,3 +279,7 @@ Print Assumptions C01_sweep_far_field_plane_wave.
 Print Assumptions C01_t_ana_3d.
 Print Assumptions C01_op3_exact_on_plane_wave.
 Print Assumptions C01_sweep3d_plane_wave.
+Print Assumptions C01_init_is_four_copies.
+Print Assumptions C01_init_homogeneous_exact.
+Print Assumptions C01_init_written_nodes.
+Print Assumptions C01_init_homogeneous_signs.
